@@ -6,7 +6,9 @@ def run(tier):
     return arrayprop.standard_run(
         "C05", tier, profiles=["grammar", "damage", "filters", "ranges", "grammar", "copy", "filters", "mixed"], nquick=48, nthorough=360,
         directed_jobs=lambda s0: [(s0 + 1, dict(nd=2, np=2, copies=2), "directed-F1", 0, directed.f1_pasthash_overwritten),
-                                  (s0 + 2, dict(nd=2, np=2, copies=2), "directed-F2", 0, directed.f2_pasthash_length)],
+                                  (s0 + 2, dict(nd=2, np=2, copies=2), "directed-F2", 0, directed.f2_pasthash_length),
+                                  (s0 + 3, dict(nd=2, np=2, copies=2), "directed-fixframes", 0, directed.fix_frames),
+                                  (s0 + 4, dict(nd=2, np=2, copies=2), "directed-fixframes", 0, directed.fix_frames)],
         scripts=[("F1s", "NoF1", "F1-chg-pasthash-is-new-hash"), ("F2", "NoF2", "F2-chg-pasthash-other-length")],
         rule="a trace is one seeded history on a real array (edits, complete/killed/partially skipped syncs, damage beyond "
              "and within the parity count, fix, check, scrub), validated step by step by TLC against ArrayTrace.tla; "
